@@ -616,6 +616,12 @@ func tierBCorpus() []*Pool {
 		{Name: "Top", Attrs: []PAttr{{Name: "id", Kind: "int", Req: true}, {Name: "r", Kind: "res", Ref: "R1"}},
 			Views: []PView{{Name: "default", Attrs: []PEntry{e("id"), e("r")}}, {Name: "tiny", Attrs: []PEntry{e("id")}}}}},
 		Methods: []PMethod{{Name: "get", Type: "Top"}}})
+	// witness of the known finding undefined-view-accepted:bodyless-response: every attribute of the
+	// result is carried by a header or a cookie, the response has no body
+	out = append(out, &Pool{Tag: "corpus:witness-bodyless", Witness: "undefined-view-accepted:bodyless-response", Types: []*PType{
+		{Name: "Pair", Attrs: []PAttr{{Name: "k", Kind: "str", Req: true}, {Name: "n", Kind: "str", Req: true}},
+			Views: []PView{{Name: "default", Attrs: []PEntry{e("n"), e("k")}}, {Name: "mid", Attrs: []PEntry{e("k"), e("n")}}}}},
+		Methods: []PMethod{{Name: "get", Type: "Pair"}, {Name: "geth", Type: "Pair", Headers: []string{"n"}, Cookies: []string{"k"}}}})
 	out = append(out, &Pool{Tag: "corpus:recursive-below-root", Types: []*PType{
 		{Name: "Node", Attrs: []PAttr{{Name: "val", Kind: "str", Req: true}, {Name: "child", Kind: "res", Ref: "Node"}, {Name: "kids", Kind: "coll", Ref: "Node"}},
 			Views: []PView{{Name: "default", Attrs: []PEntry{e("val"), e("child"), e("kids", "tiny")}},
@@ -1021,7 +1027,11 @@ func runTierB(self, out, repo, harnessDir string, rng *vh.RNG, nDesigns, nVals i
 					failSig(res, "fixed-view-not-applied", fmt.Sprintf("client result of a method whose view is fixed in the design is not the restriction to that view (goa-view %q was injected): %s at %s", in.Inject, c, wh), input)
 				}
 			case !injDefined:
-				if ob.ClientErr == nil {
+				if ob.ClientErr == nil && ob.Resp != nil && strings.TrimSpace(ob.Resp.Body) == "" && nilResult(ob) {
+					// known finding: every attribute of the result travels in headers / cookies, the response
+					// has no body type and the generated decoder validates the view only next to a body
+					failSig(res, "undefined-view-accepted:bodyless-response", fmt.Sprintf("response without a body (every attribute carried by headers / cookies) labelled goa-view %q, which %s does not define: the generated client skips the validation and returns a nil result and no error", in.Inject, t), input)
+				} else if ob.ClientErr == nil {
 					input["client_result"] = client
 					failSig(res, "undefined-view-accepted", fmt.Sprintf("client returned a result for a response labelled goa-view %q, which %s does not define", in.Inject, t), input)
 				} else if ob.ClientErr.Name != "validation_error" {
@@ -1051,6 +1061,8 @@ func runTierB(self, out, repo, harnessDir string, rng *vh.RNG, nDesigns, nVals i
 			cl = "OPanic"
 		case ob.ClientErr != nil && ob.Resp != nil:
 			cl = "OErr"
+		case ob.ClientErr == nil && ob.Resp != nil && nilResult(ob):
+			cl = "ONil"
 		case ob.ClientErr == nil && ob.HasResult:
 			cl = "(OOk " + coqVal(p, t, client, lt) + ")"
 		}
@@ -1220,4 +1232,9 @@ func clientOutcome(ob *rt.Obs) string {
 		return f
 	}
 	return "a result"
+}
+
+// nilResult: the client returned no error and a nil result (possibly a typed nil pointer).
+func nilResult(ob *rt.Obs) bool {
+	return !ob.HasResult || ob.ClientResult == nil || ob.ClientResult.K == "nil"
 }
